@@ -321,6 +321,66 @@ func TestC03(t *testing.T) {
 		}
 	})
 
+	// (A3) Intel's genuine recorded collateral for a platform under a PRIVATE root: a look-alike of the sample platform
+	// (same FMSPC / PCE-ID, the sample's TDX-module and QE identity values, top SVNs) certified by the harness's own PKI.
+	// The recorded responses are authentic — signed by Intel's TCB signer under Intel's root — but the caller pinned a
+	// private root only: the collateral does not chain to the trusted roots and must not count. With Intel's root added
+	// to the pool the same quote is accepted (control: the scenario is not vacuous).
+	gen.Direct(t, "intel-collateral-under-a-private-root", func(t *testing.T) {
+		sample, err := gen.RefParse(testdata.RawQuote)
+		if err != nil {
+			gen.HarnessError(t, "reference parser rejects the sample quote: %v", err)
+		}
+		at := time.Date(2023, time.July, 1, 1, 0, 0, 0, time.UTC)
+		for i := 0; i < 3; i++ {
+			p := gen.NewPKI(gen.PKISpec{Seed: gen.PKISeeds[i]})
+			w := gen.NewWorld(p, gen.NewStream(gen.Seed()+uint64(i), "c03intel"))
+			copy(w.Sgx.Fmspc[:], []byte{0x50, 0x80, 0x6f, 0x00, 0x00, 0x00})
+			w.Sgx.PceID = [2]byte{0, 0}
+			for j := range w.Sgx.Comp {
+				w.Sgx.Comp[j] = 255
+			}
+			w.Sgx.PceSvn = 65535
+			q := w.Q
+			for j := range q.TeeTcbSvn {
+				q.TeeTcbSvn[j] = 255
+			}
+			q.TeeTcbSvn[1] = 0
+			q.MrSignerSeam, q.SeamAttr = sample.MrSignerSeam, sample.SeamAttr
+			q.QeMiscSelect, q.QeAttributes, q.QeMrSigner, q.QeIsvProdID, q.QeIsvSvn = sample.QeMiscSelect, sample.QeAttributes, sample.QeMrSigner, sample.QeIsvProdID, 65535
+			w.Times = verify.TimeSet{PckCertChain: at, TcbInfo: at, QeIdentity: at, PckCrl: at, RootCaCrl: at}
+			w.Build()
+			resp := map[string]gen.Response{}
+			for u, r := range tdxtesting.TestGetter.Responses {
+				resp[u] = gen.Response{Header: r.Header, Body: r.Body}
+			}
+			run := func(pool *x509.CertPool) gen.Verdict {
+				ts := w.Times
+				o := &verify.Options{GetCollateral: true, TrustedRoots: pool, Now: &ts, Getter: &gen.Getter{Resp: resp, Script: map[string][]gen.Response{}}}
+				gen.Eval()
+				return gen.Call(func() error { return verify.RawTdxQuote(w.Raw, o) })
+			}
+			both := x509.NewCertPool()
+			both.AddCert(p.Root.X)
+			both.AddCert(embeddedIntelRoot(t))
+			if v := run(both); !v.Accepted() {
+				// the recorded collateral does not fit the look-alike after all: nothing to conclude from the private-pool run
+				gen.Class("intel-collateral-control-rejected")
+				gen.Inconclusive("intel-collateral-under-a-private-root: control (pool with both roots) rejected: " + v.String())
+				return
+			}
+			v := run(p.Pool())
+			gen.NonTrivial("intel-private", i)
+			gen.Class("class:intel-collateral-under-a-private-root")
+			gen.Sample("intel-collateral-under-a-private-root", map[string]any{"pki": gen.PKISeeds[i], "verdict": v.Short()})
+			if v.Accepted() {
+				gen.Fail(t, gen.Violation{Key: "accepts-unauthentic:intel-signed-collateral-under-a-private-root", Oracle: "collateral counts only if its signer chains to the TRUSTED roots (here: a private root only)", Detail: "a platform certified under a private root is accepted with Intel's recorded collateral although Intel's root is not in the pool",
+					Replay: map[string]any{"kind": "intel-collateral-private-root", "pki": gen.PKISeeds[i]}})
+				return
+			}
+		}
+	})
+
 	// (B..F) structured alterations.
 	alterations := []string{
 		"foreign-signer-header-foreign", "foreign-signer-header-genuine", "signed-by-pck-leaf", "signed-by-intermediate", "signed-by-root", "signer-wrong-name", "signer-self-signed-lookalike-root",
@@ -331,6 +391,7 @@ func TestC03(t *testing.T) {
 		"signed-omits-field-unsigned-supplies-it", "signed-omits-field-unsigned-supplies-it", "signer-clones-issuer-and-serial-lookalike-root", "signer-clones-issuer-and-serial-genuine-root", "signer-clones-issuer-and-serial-bitflipped-genuine-cert",
 		"exact-key-unsigned-other-key-signed-after", "exact-key-unsigned-other-key-signed-before", "exact-key-unsigned-other-key-signed-after",
 		"foreign-signer-not-yet-valid", "foreign-signer-expired", "foreign-signer-not-yet-valid-header-genuine-root",
+		"id-and-version-of-the-other-document", "other-document-in-this-position",
 		"control-canonical",
 	}
 	gen.Prop(t, "alterations", gen.N(6000, 250000), func(t *rapid.T) {
@@ -541,6 +602,19 @@ func TestC03(t *testing.T) {
 				ww.QeID.Levels = nil
 			}
 			resp.Body = gen.SignedBody(k.member, k.render(&ww), signer.Key)
+		case "id-and-version-of-the-other-document":
+			// wrong id AND wrong version together, in the one way that is right for the other document
+			ww := *w
+			ww.TcbInfo.ID, ww.TcbInfo.Version = "TD_QE", 2
+			ww.QeID.ID, ww.QeID.Version = "TDX", 3
+			resp.Body = gen.SignedBody(k.member, k.render(&ww), signer.Key)
+		case "other-document-in-this-position":
+			// the genuinely signed OTHER document served under this member name (both are signed by TCB signers)
+			ok := kindQe
+			if k.name == "qe" {
+				ok = kindTcb
+			}
+			resp.Body = gen.SignedBody(k.member, ok.render(w), signer.Key)
 		case "missing-member":
 			resp.Body = body(sigm("signature", sigHex))
 		case "missing-signature":
